@@ -67,10 +67,12 @@ class Slicer:
     def local(self, l, bb, idx, depth=0, stack=()):
         if depth > self.max_depth:
             return ("unknown", "depth")
-        if (l, bb, idx) in stack:
-            return ("cycle", l)
-        stack = stack + ((l, bb, idx),)
         rds = self.reaching(l, bb, idx)
+        # a loop-carried variable: same local with the same reaching-definition set
+        key = (l, tuple(sorted((d[0], d[1]) if d != ("entry",) else (-1, -1) for d in rds)))
+        if key in stack:
+            return ("cycle", l, self.b.local_name(l))
+        stack = stack + (key,)
         terms = []
         for d in rds:
             if d == ("entry",):
@@ -107,6 +109,12 @@ class Slicer:
         if nm == "<indirect>":
             fn = self.operand(t["func"], bb, nidx, depth + 1, stack)
             return ("icall", fn, args, bb)
+        if nm.endswith("box_assume_init_into_vec_unsafe"):
+            # `vec![a, b, ..]`: the array is written through the box pointer in the same block
+            for i, st in enumerate(self.b.blocks[bb]["stmts"]):
+                if st["s"] == "assign" and st["rv"]["r"] == "agg" and st["rv"]["ak"] == "array" and "*" in st["lhs"]["p"]:
+                    arr = self.rvalue(st["rv"], bb, i, depth + 1, stack)
+                    return ("call", "vec!", (arr,), bb)
         return ("call", nm, args, bb)
 
     def place(self, p, bb, idx, depth=0, stack=()):
@@ -320,3 +328,38 @@ def show(t, depth=0):
     if tag == "phi":
         return "phi(%s)" % " | ".join(show(a, d) for a in t[1])
     return "%s" % (t,)
+
+
+class PathSlicer(Slicer):
+    """Reaching definitions restricted to one acyclic block path (path-sensitive
+    terms for table extraction)."""
+
+    def __init__(self, body, path, max_depth=60):
+        super().__init__(body, max_depth)
+        self.path = [p for p in path if not isinstance(p, tuple)]
+        self.pos = {bb: i for i, bb in enumerate(self.path)}
+
+    def reaching(self, l, bb, idx):
+        key = (l, bb, idx)
+        if key in self._rd:
+            return self._rd[key]
+        defs = self.whole_defs(l)
+        by_block = {}
+        for d in defs:
+            by_block.setdefault(d[0], []).append(d)
+        res = None
+        i = self.pos.get(bb)
+        if i is None:
+            return super().reaching(l, bb, idx)
+        limit = idx
+        while i >= 0:
+            b = self.path[i]
+            cands = [d for d in by_block.get(b, []) if d[1] < limit]
+            if cands:
+                res = max(cands, key=lambda d: d[1])
+                break
+            i -= 1
+            limit = 10 ** 9
+        out = [res] if res is not None else [("entry",)]
+        self._rd[key] = out
+        return out
